@@ -548,6 +548,8 @@ def run(ctx: RuleContext, p: Program) -> None:
     from . import c10 as _c10
     # a model handed out by the meta mapping (pop(key), popitem()) is a tree of its own: alone in its store
     ctx.try_rule(_c10.rule_map_first, p, 'MAP-FIRST')
+    from . import viewlive as _vl
+    ctx.try_rule(_vl.rule_store_edge, p, 'STORE-EDGE')
     ctx.not_decided += ['nesting / non-overlap of child spans (runtime)', 'single ownership of every significant token (runtime)',
                         'that every tree leaf is currently in the store (runtime)']
     ctx.assumptions += ['reattach(store) re-binds a whole subtree (COVER-REATTACH)', 'tokens need no reattach (their store is their handle)']
